@@ -537,6 +537,13 @@ impl Circle2 {
         if dist(&self.center, &other.center) < 1.0e-10 {
             // If the circles are concentric, there will be no outer tangents
             None
+        } else if dist(&self.center, &other.center)
+            <= (self.ball.radius - other.ball.radius).abs() + 1.0e-10
+            && (self.ball.radius - other.ball.radius).abs() >= 1.0e-10
+        {
+            // If one circle is inside the other (or touches it from the inside) there is no pair
+            // of outer tangent segments either
+            None
         } else if (self.ball.radius - other.ball.radius).abs() < 1.0e-10 {
             // If the circles have the same radius, the outer tangent method must be computed
             // by a simpler, special case
